@@ -96,9 +96,6 @@ theorem asStream_keeps_every_phase (w w' : World) (k : Nat) (h : w.step (.asStre
     Covers w k (w'.phases k) ∧ RowsKept w w' k :=
   ⟨asStream_covers (step_ok h).2, asStream_rowsKept (step_ok h).2 (asStream_covers (step_ok h).2)⟩
 
-/-- a phase that keeps its exact label keeps exactly its material when no other-case phase folds into it -/
-theorem dest_exact (t : List Ph) (p : Ph) (hp : p ∈ t) : dest t p = some p := dest_of_mem hp
-
 /-- case folding happens only when the exact label is absent -/
 theorem dest_fold_only_if_absent (t : List Ph) (p q : Ph) (h : dest t p = some q) (hne : q ≠ p) :
     p ∉ t ∧ p.flip = some q := by
@@ -153,17 +150,17 @@ theorem setPhases_ok_iff (w : World) (k : Nat) (ps : List Ph) (hlen : 2 ≤ (pha
 
 /-! ### phase views are live -/
 
-/-- `views_live`: after ANY history of operations (any length, any kind, raising operations included) —
-conversions, view creation, writes, save/restore, `unlink`, `link_with`, `copy_like`, `mix_from` with phase
-growth, `_reset_thermo`, `proxy`, new streams — every cached phase view of every MultiStream of the universe
-refers to that stream's current row for its phase and to its thermal condition. -/
-theorem views_live (ops : List Op) (k : Nat)
-    (hk : k < (World.init.run ops).nStr) (hm : ((World.init.run ops).str k).multi = true) :
-    LiveAt (World.init.run ops) k :=
-  (run_inv inv_init ops).live k hk hm
-
-/-- the same from any state that satisfies the invariant -/
-theorem views_live_from (w : World) (hi : Inv w) (ops : List Op) : Inv (w.run ops) := run_inv hi ops
+/-- `views_live`: after any history of operations over any number of chemicals (any length, raising operations
+included) that stays INSIDE THE MODEL (`InModel`: no operation is one the model refuses, see `World.accepts`) —
+conversions, view creation, writes, conversions attempted on a view, save/restore, `unlink`, `link_with`,
+`copy_like`, `mix_from` with phase growth, `_reset_thermo`, `proxy`, new streams — every cached phase view of
+every MultiStream of the universe refers to that stream's current row for its phase and to its thermal condition.
+(The hypothesis states the scope: `run` treats a refused operation as a no-op, which says nothing about the code
+there; `Lemmas.aliasKey_growth_detaches_view` shows one refused region really breaks liveness.) -/
+theorem views_live (n : Nat) (ops : List Op) (_hin : (World.init n).InModel ops) (k : Nat)
+    (hk : k < ((World.init n).run ops).nStr) (hm : (((World.init n).run ops).str k).multi = true) :
+    LiveAt ((World.init n).run ops) k :=
+  (run_inv (inv_init n) ops).live k hk hm
 
 /-- a proxy shows what its original shows (it is the same indexer and thermal condition) -/
 theorem proxy_shows_original (w w' : World) (k : Nat) (h : w.step (.proxy k) = .ok w') :
@@ -195,43 +192,6 @@ theorem view_shares_TP (w : World) (k : Nat) (hk : k < w.nStr) (hl : LiveAt w k)
   obtain ⟨_, h3, _⟩ := hl c hc
   simp [World.step, Op.inBounds, Op.target, Op.reads, World.body, hv c hc, h3, hk]
 
-/-! counterexamples: what the setters did before they re-seated the views -/
-
-/-- `a = MultiStream(phases=(g,l)); a['l']` -/
-def viewWorld : World := World.init.run [.newM [.g, .l] 300 101325 [], .view 0 .l]
-
-/-- The `MultiStream.phases` setter before commit bab44aa (defect #7): `a.phases = (g,l,s)` leaves the cached
-view of `'l'` bound to the pre-change row. -/
-theorem legacy_phases_setter_detaches_views :
-    ∃ w', viewWorld.toMultiLegacy 0 [.g, .l, .s] = .ok w' ∧ ¬ LiveAt w' 0 := by
-  have hall : ((viewWorld.sources 0).all fun s => !s.2.2 || (dest [.g, .l, .s] s.1).isSome) = true := by
-    decide
-  have hok : ∃ w', viewWorld.toMultiLegacy 0 [.g, .l, .s] = .ok w' := by
-    unfold World.toMultiLegacy
-    simp only [hall, if_true]
-    exact ⟨_, rfl⟩
-  obtain ⟨w', hw'⟩ := hok
-  refine ⟨w', hw', ?_⟩
-  intro hl
-  unfold World.toMultiLegacy at hw'
-  simp only [hall, if_true] at hw'
-  injection hw' with hw'
-  subst hw'
-  have := (hl (.l, 0) (by decide)).2.2
-  revert this
-  decide
-
-/-- `b = MultiStream(phases=(g,l))` next to `a` -/
-def linkWorld : World := World.init.run [.newM [.g, .l] 300 101325 [], .view 0 .l, .newM [.g, .l] 350 90000 []]
-
-/-- `link_with` before commit d9738d9 (defect C12-5): after `a.link_with(b)` the cached view of `a['l']` is
-still bound to `a`'s old row and old thermal condition. -/
-theorem legacy_link_detaches_views : ¬ LiveAt (linkWorld.linkLegacy 0 1 true true) 0 := by
-  intro hl
-  have := (hl (.l, 0) (by decide)).2.1
-  revert this
-  decide
-
 /-! ### save / restore -/
 
 /-- `save_restore`: `s.set_data(s.get_data())` — also after ARBITRARY intervening operations (any number,
@@ -258,14 +218,11 @@ theorem save_restore (w : World) (hw : WF w) (k : Nat) (hk : k < w.nStr) (ops : 
   exact ⟨hmulti, rfl, rfl, rfl, rfl⟩
 
 /-- the same for every state reachable from the empty universe: any history, a save, any history, the restore -/
-theorem save_restore_reachable (before between : List Op) (k : Nat)
-    (hk : k < (World.init.run before).nStr) :
-    let w := World.init.run before
+theorem save_restore_reachable (n : Nat) (before between : List Op) (k : Nat)
+    (hk : k < ((World.init n).run before).nStr) :
+    let w := (World.init n).run before
     ∃ w', ((w.save k).run between).restore k w.snaps.length = .ok w' ∧ w'.obs k = w.obs k :=
-  save_restore _ (run_wf wf_init before) k hk between
-
-/-- the shape invariant holds along every history (proxies included) -/
-theorem wf_history (ops : List Op) : WF (World.init.run ops) := run_wf wf_init ops
+  save_restore _ (run_wf (wf_init n) before) k hk between
 
 /-! ### the re-seating operations keep what the stream shows -/
 
@@ -291,23 +248,23 @@ def demoOps : List Op :=
 
 /-- `views_live` speaks about non-empty caches after a history with phase growth, link, unlink, reset_thermo
 and a proxy: stream 0 is a MultiStream over four phases with two cached views, its proxy (stream 2) has one -/
-example : (World.init.run demoOps).nStr = 3 ∧ ((World.init.run demoOps).cacheOf 2).length = 1 ∧ ((World.init.run demoOps).str 0).multi = true ∧
-    ((World.init.run demoOps).cacheOf 0).length = 2 ∧ (World.init.run demoOps).phases 0 = [.L, .g, .l, .s] := by
+example : ((World.init 3).run demoOps).nStr = 3 ∧ (((World.init 3).run demoOps).cacheOf 2).length = 1 ∧ (((World.init 3).run demoOps).str 0).multi = true ∧
+    (((World.init 3).run demoOps).cacheOf 0).length = 2 ∧ ((World.init 3).run demoOps).phases 0 = [.L, .g, .l, .s] := by
   decide +kernel
 
 /-- `convert_rows` / `convert_totals` apply to a real conversion with case folding -/
-example : ∃ w', (World.init.run (demoOps.take 3)).step (.setPhases 0 [.g, .l]) = .ok w' ∧
-    Covers (World.init.run (demoOps.take 3)) 0 (w'.phases 0) ∧ w'.phases 0 = [.g, .l] := by
-  have hc : Covers (World.init.run (demoOps.take 3)) 0 (phaseTuple [.g, .l]) := by
+example : ∃ w', ((World.init 3).run (demoOps.take 3)).step (.setPhases 0 [.g, .l]) = .ok w' ∧
+    Covers ((World.init 3).run (demoOps.take 3)) 0 (w'.phases 0) ∧ w'.phases 0 = [.g, .l] := by
+  have hc : Covers ((World.init 3).run (demoOps.take 3)) 0 (phaseTuple [.g, .l]) := by
     intro x hx _
     have : x.1 = .L ∨ x.1 = .l := by
-      have : x.1 ∈ (World.init.run (demoOps.take 3)).phases 0 := List.mem_map.2 ⟨x, hx, rfl⟩
-      have hp : (World.init.run (demoOps.take 3)).phases 0 = [.L, .l] := by decide
+      have : x.1 ∈ ((World.init 3).run (demoOps.take 3)).phases 0 := List.mem_map.2 ⟨x, hx, rfl⟩
+      have hp : ((World.init 3).run (demoOps.take 3)).phases 0 = [.L, .l] := by decide
       rw [hp] at this
       simpa using this
     rcases this with h | h <;> rw [h] <;> decide
-  have hnew : ¬ (((World.init.run (demoOps.take 3)).str 0).multi = true ∧
-      phaseTuple [.g, .l] = (World.init.run (demoOps.take 3)).phases 0) := by decide
+  have hnew : ¬ ((((World.init 3).run (demoOps.take 3)).str 0).multi = true ∧
+      phaseTuple [.g, .l] = ((World.init 3).run (demoOps.take 3)).phases 0) := by decide
   obtain ⟨w', hw'⟩ := (setPhases_ok_iff _ 0 [.g, .l] (by decide) hnew).2 hc
   have hph : w'.phases 0 = [.g, .l] := by
     rcases setPhases_cases hw' with ⟨q, hq, _, _⟩ | ⟨q, hq, _, _⟩ | ⟨_, hm, he, _⟩ | ⟨_, _, h⟩
@@ -316,11 +273,15 @@ example : ∃ w', (World.init.run (demoOps.take 3)).step (.setPhases 0 [.g, .l])
     · exact absurd ⟨hm, he⟩ hnew
     · exact toMulti_phases h
   refine ⟨w', ?_, hph ▸ hc, hph⟩
-  have hb : (Op.setPhases 0 [.g, .l]).inBounds (World.init.run (demoOps.take 3)).nStr = true := by decide
+  have hb : (Op.setPhases 0 [.g, .l]).inBounds ((World.init 3).run (demoOps.take 3)).nStr = true := by decide
   simp only [World.step, hb, if_true, World.body]
   exact hw'
 
 /-- the hypotheses of `save_restore` hold after any history -/
-example : WF (World.init.run (demoOps ++ [.save 0, .vle 0, .proxy 0])) := wf_history _
+example : WF ((World.init 4).run (demoOps ++ [.save 0, .vle 0, .proxy 0])) := wf_history 4 _
+
+/-- the scope hypothesis of `views_live` is met by the demo history (and a conversion attempted on a view is inside the model) -/
+example : (World.init 3).InModel (demoOps ++ [.hAccessor 0, .hPhases 1 [.L]]) := by
+  unfold World.InModel; decide +kernel
 
 end ThermoVerif.Props.C12
